@@ -8,7 +8,9 @@ import (
 
 // Security builds a small family of method/controller security shapes over the declared schemes s1, s2.
 func Security() Family {
-	shapes := [][]scen.Sec{nil, {{Scheme: "s1", Scopes: []string{}}}, {{Scheme: "s1", Scopes: []string{"a", "b"}}}, {{Scheme: "s1", Scopes: []string{"a"}}, {Scheme: "s2", Scopes: []string{"b"}}}, {{Scheme: "s1", Scopes: []string{"a"}}, {Scheme: "s1", Scopes: []string{"b"}}}}
+	shapes := [][]scen.Sec{nil, {{Scheme: "s1", Scopes: []string{}}}, {{Scheme: "s1", Scopes: []string{"a", "b"}}}, {{Scheme: "s1", Scopes: []string{"a"}}, {Scheme: "s2", Scopes: []string{"b"}}}, {{Scheme: "s1", Scopes: []string{"a"}}, {Scheme: "s1", Scopes: []string{"b"}}},
+		// near misses of declared names: such projects must not yield a document at all
+		{{Scheme: "S1", Scopes: []string{"a"}}}, {{Scheme: "s1", Scopes: []string{"a"}}, {Scheme: "s", Scopes: []string{}}}}
 	var cases []scen.Case
 	n := 0
 	for mi, m := range shapes {
